@@ -98,7 +98,9 @@ ScanContract ==
       /\ Flat(gopts) = Sel(r.items, NotConsumed)
       /\ operands \o args = r.words
       /\ fl.l = Any(r.items, Refl) /\ fl.L = Any(r.items, RefL)
-      /\ fl.H = Any(r.items, RefH) /\ fl.h = Any(r.items, Refh)
+      /\ LET hh == Sel(r.items, LAMBDA it : RefH(it) \/ Refh(it)) IN     \* the last of -h/-H is remembered
+         /\ fl.H = (hh # <<>> /\ RefH(hh[Len(hh)]))
+         /\ fl.h = (hh # <<>> /\ Refh(hh[Len(hh)]))
       /\ havePat = Any(r.items, RefPat)
 EarlyExitContract ==
     (pc = "done" /\ outcome \in {"help", "version", "unsupported", "missingarg"}) =>
@@ -136,12 +138,9 @@ NameContract ==      \* -l wins over -L as in grep? (grep: the last one wins; we
       /\ (Any(Ref.items, RefL) /\ ~Any(Ref.items, Refl)) =>
             (out[j].how \in {"name", "none"} /\ (~Bad(hist[j]) => (out[j].how = "name" <=> hist[j].st.gr = 1)))
       /\ ~ListMode => out[j].how \in {"plain", "label", "sed"}
-\* the part of the label contract that the script is expected to satisfy everywhere
 LabelContract ==
-    (~ListMode /\ ~HhConflictLastIsh) => \A j \in 1..Len(out) : LabelOf(out[j]) <=> WantLabel
-\* strict versions (the script is known to deviate: see checks/c20.py)
-LabelStrict ==
     ~ListMode => \A j \in 1..Len(out) : LabelOf(out[j]) <=> WantLabel
+\* strict version of the separator clause (the sed fallback is known to deviate: see checks/c20.py)
 SedContextStrict ==
     \A j \in 1..Len(out) : (out[j].how = "sed") => ~Any(Flat(gopts), RefCtx)
 
